@@ -561,7 +561,7 @@ func init() {
 			return a + b + t + g + r + rs
 		},
 		Run:         c01Run,
-		CaseTimeout: 20,
+		CaseTimeout: 30,
 		Rule: "four workloads in crash-isolated worker processes (panic => violation via recover, process death and hangs via the driver's progress log and watchdogs): " +
 			"(1) complete sweeps: every registered filter (from the verif hook) x every zoo value (about 100 Go values: nil, strings incl. invalid UTF-8, every int/uint/float kind with extremes/NaN/Inf, slices, arrays, maps with string/int/float/bool/named keys, structs with unexported and embedded fields, pointers incl. typed nil, Stringers, time, errors, *Value, functions of accepted and rejected shapes) x 35 parameters through ApplyFilter and {{ v|f:p }}; every zoo value x every resolver step x (quick: a seed-dependent 1/20, thorough: every) second step; 80 tag/operator forms x every zoo value in the argument slot; " +
 			"(2) grammar-generated programs over all tags/filters/operators with loader files, 3 contexts, TrimBlocks/LStripBlocks settings, the four Execute entry points; (3) byte-level mutations of the repository's fixtures and of generated programs; (4) 40 resource shapes (deep nesting, long chains, every macro recursion route, cyclic include/extends/import/ssi graphs). " +
